@@ -339,6 +339,9 @@ def run(chk, repo):
     last = reds[-1] if len(reds) == 1 else max(prets, key=lambda n: n.lineno)
     good = False
     v = last.value
+    if isinstance(v, ast.Name):
+        from .c05 import _fold_value
+        v = _fold_value(pw, v.id) or v
     if isinstance(v, ast.Call) and canon_call(pmod, v) == "functools.reduce" and canon(pmod, v.args[0]) == "operator.mul":
         seq = v.args[1]
         if isinstance(seq, ast.BinOp) and isinstance(seq.op, ast.Add):
